@@ -430,6 +430,42 @@ def scalars(by, p, job):
                         bad("%s|not-inverse" % enc.__name__, h, "%s(%s(%r))=%r expected %r" % (enc.__name__, dec.__name__, h, h2, even.lower()),
                             fn=enc.__name__, text=h, got=h2, expected=even.lower())
         p.outcome("unhexify/unhexize on hex text")
+    elif kind == "unhexsep":
+        # hex text with separators: the decoders ignore every character that is not a hex digit (docstring/comment), so text with
+        # 0..2 non-hex characters inserted at every position decodes like the bare digits.  digits over '01aF', first digit index lo.
+        digits = "01aF"
+        seps = ":" " " "\n" "x" "-"
+        maxlen = 4 if core.TIER == "quick" else 5
+        for ln in range(maxlen + 1):
+            for t in itertools.product(range(len(digits)), repeat=ln):
+                if t and not (lo <= t[0] < hi):
+                    continue
+                if not t and lo != 0:
+                    continue
+                h = "".join(digits[i] for i in t)
+                even = h if len(h) % 2 == 0 else "0" + h
+                raw = bytes.fromhex(even)
+                variants = []
+                for i in range(ln + 1):
+                    for a in seps:
+                        variants.append(h[:i] + a + h[i:])
+                        for j in range(i, ln + 1):
+                            for b2 in seps:
+                                variants.append(h[:i] + a + h[i:j] + b2 + h[j:])
+                for text in variants:
+                    p.evaluations += 1
+                    for dec, enc in ((by.unhexify, by.hexify), (by.unhexize, by.hexize)):
+                        ok, b = call(dec, text)
+                        if not ok or bytes(b) != raw:
+                            bad("%s|separators-not-ignored" % dec.__name__, repr(text), "%s(%r)=%r, the hex digits %r alone decode to %r"
+                                % (dec.__name__, text, b, h, raw), fn=dec.__name__, text=text, got=b, expected=raw)
+                            continue
+                        ok, h2 = call(enc, b)
+                        if not ok or h2 != even.lower():
+                            bad("%s|not-inverse-with-separators" % enc.__name__, repr(text), "%s(%s(%r))=%r expected %r" % (enc.__name__, dec.__name__, text, h2, even.lower()),
+                                fn=enc.__name__, text=text, got=h2, expected=even.lower())
+                p.nontrivial(("unhexsep", h))
+        p.outcome("unhexify/unhexize on hex text with separators")
     elif kind == "bin":
         # binize / unbinize: all n < 2**size for size <= 10 (12 thorough); all binary strings of those lengths
         maxbits = 10 if core.TIER == "quick" else 12
@@ -543,6 +579,8 @@ def run():
         jobs.append(("hex", lo, lo + 16))
     for lo in range(0, 22, 2):
         jobs.append(("unhex", lo, lo + 2))
+    for lo in range(4):
+        jobs.append(("unhexsep", lo, lo + 1))
     for lo in range(0, 13):
         jobs.append(("bin", lo, lo + 1))
     for lo in range(1, 15):
@@ -554,7 +592,8 @@ def run():
         "1.0, 'x', [0] pack 1 and 0, 0.0, None, '', [] pack 0; wider fields get garbage above the field width and must be masked",
         "the padding field returned by unpackify is compared by value only (its type under boolean=True is not specified by the statement)",
         "unhexify/unhexize: odd-length text is read with a leading '0' and upper case is accepted (docstring); text -> bytes -> text therefore "
-        "returns the lower-case even-length form; non-hex characters are outside the domain and not fed",
+        "returns the lower-case even-length form; characters that are not hex digits are ignored (documented in the code comments: 'remove any non hex "
+        "characters'), so text with up to two of ':', ' ', newline, 'x', '-' inserted anywhere decodes like the bare digits",
         "bytify: negative n and strict=True truncate to size bytes (two's complement), otherwise the result grows to hold n (docstring)",
         "mirror image = byte-reversed: packify(reverse=True) == reversed(packify()), unpackify(reversed(b), reverse=True) == unpackify(b), same for bytify/unbytify",
     ]
@@ -562,7 +601,7 @@ def run():
         rule="formats = every composition of W into positive field widths; W <= %d: every in-range value tuple (plus masked out-of-range / bool variants, "
              "explicit size+1, padding bits 0/1/all-ones, boolean x reverse, packifyInto at offsets 0-2 into long and short 0xAA buffers); %d < W <= %d: "
              "boundary tuples (zero, max, alternating, each field alone at 1/msb/max-1/max and complements). bytify: every n in [-4096, 65536) x size 0-3 "
-             "x strict x reverse; unbytify/hex: every byte string of length <= %d/2; unhex: every hex-digit text of length <= %d; binize: every n < 2**size, "
+             "x strict x reverse; unbytify/hex: every byte string of length <= %d/2; unhex: every hex-digit text of length <= %d, and every text over '01aF' of length <= 4 (5) with 1 or 2 of 5 non-hex characters inserted at every position; binize: every n < 2**size, "
              "size <= %d; signExtend: every x < 2**n, n <= %d. distinct = (format, values) for W <= %d, format above, and every scalar input."
              % (FULL_W, FULL_W, EDGE_W, 2 if core.TIER == "quick" else 3, 3 if core.TIER == "quick" else 4,
                 10 if core.TIER == "quick" else 12, 10 if core.TIER == "quick" else 14, KEY_W),
